@@ -37,7 +37,7 @@ EXEMPT = {
 MIN_ENTRIES = {'A': 30, 'B': 10, 'C': 30, 'D': 30}
 
 
-def entries(P):
+def entries(P, include_persistence=False):
     out = []
     for f in P.fns.values():
         if f['kind'] != 'AssocFn' or not f['cont'] or f['cont']['kind'] != 'impl' or f['cont']['trait']:
@@ -52,7 +52,7 @@ def entries(P):
             continue
         if not re.match(r'(std|core)::result::Result<', f['ret']):
             continue
-        if re.search(r'::write_to_storage', f['qual']):
+        if not include_persistence and re.search(r'::write_to_storage', f['qual']):
             continue        # persistence is C15's subject (its partial-progress order is checked there)
         out.append(f['qual'])
     return sorted(set(out))
